@@ -321,6 +321,10 @@ def defn_corpus():
           ('sum(as.constant 1.0, >=2.0 sum(as.constant 10.0, as.polynomial 0.0 100.0))', [0.5, 2.5]), ('product(as.polynomial 1.0 -0.2, as.lj 0.0103 3.4)', [5.0, 3.4, 4.0]),
           ('trans(>=0 as.polynomial 1.0 2.0 1.5, as.constant -2.0)', [1.0, 2.5]),
           # a negative base with a constant integer exponent (the manual's own example): real and differentiable (fix 4dbb85c)
+          # products of three and four factors: every cross term of the second derivative carries the remaining factors
+          ('product(as.buck 1000.0 0.2 32.0, as.polynomial 0.0 2.0, as.polynomial 1.0 -3.0 0.5)', [1.6, 0.9]),
+          ('product(as.polynomial 1.0 0.5, as.constant 3.0, as.bornmayer 10.0 1.5, as.polynomial 2.0 -0.25 0.125)', [1.25, 2.5]),
+          ('sum(as.buck 1000.0 0.3 10.0, as.polynomial 0.0 2.0 0.5, as.bornmayer 10.0 1.5)', [1.5]),
           ('pow(sum(as.constant -1.0, as.polynomial 0.0 0.25), as.constant 2)', [1.0, 2.0, 6.0]), ('pow(as.polynomial -3.0 0.5, as.constant 3)', [1.0, 4.0])]
     return [{'defn': d, 'r': r} for d, rs in ds for r in rs]
 
